@@ -126,7 +126,8 @@ func ThreeWL(cp1, cp2, cp3 []wm.CPort) []wm.Workload {
 	return []wm.Workload{
 		{Kind: "Deployment", NS: "ns1", Name: "w1", Labels: map[string]string{"app": "a"}, Ports: cp1, Replicas: 1},
 		{Kind: "Deployment", NS: "ns1", Name: "w2", Labels: map[string]string{"app": "b", "tier": "x"}, Ports: cp2, Replicas: 2},
-		{Kind: "StatefulSet", NS: "ns2", Name: "w3", Labels: map[string]string{"app": "a"}, Ports: cp3, Replicas: 1},
+		// the same name as the first workload, in another namespace and of another kind (anything keyed by name alone collides)
+		{Kind: "StatefulSet", NS: "ns2", Name: "w1", Labels: map[string]string{"app": "a"}, Ports: cp3, Replicas: 1},
 	}
 }
 
